@@ -90,6 +90,7 @@ class MapperLab:
         I.merge_diamonds = False   # the walk rules classify each path by the entry bits it tested
         self.I = I
         I.object_factory = lambda p: table_val(p.key())
+        self.invariant = invariant
         if invariant:
             I.refine_hook = self._hook
         I.models[TBL + '::zero'] = self._m_zero
@@ -435,8 +436,9 @@ def norm_result(ps):
     return (r[0],)
 
 
-def knowledge(ps, table, idx, upto):
-    """constant bits known about an entry just before step number `upto`: from the last write and from tests since"""
+def knowledge(ps, table, idx, upto, invariant=True):
+    """constant bits known about an entry just before step number `upto`: from the last write and from tests since
+    (invariant=False: without the all-zero-or-PRESENT input invariant, a test tells only what it tested)"""
     known = {}
     for s in ps.steps[:upto]:
         if s.k == 'write' and s.table == table and s.idx.key() == idx.key() and isinstance(s.new, BV):
@@ -447,11 +449,11 @@ def knowledge(ps, table, idx, upto):
             if s.what == 'unused':
                 if s.res == 1:
                     known = {i: 0 for i in range(64)}
-                else:
+                elif invariant:
                     known[0] = 1     # non-zero entries are present (input invariant)
             elif s.what == 'present':
                 known[0] = s.res
-                if s.res == 0:
+                if s.res == 0 and invariant:
                     known = {i: 0 for i in range(64)}
             elif s.what == 'huge':
                 known[7] = s.res
